@@ -44,13 +44,24 @@ def seeds(props):
     want = {}
     for line in open(res):
         p = line.split()
-        if len(p) >= 4 and 'checks:' in line:
+        if (len(p) >= 4 and 'checks:' in line) or (len(p) >= 3 and p[1] ==
+                                                  'recheck:'):
+            # a later line for the same seed and check replaces an earlier
+            # one (checks are strengthened after a miss and re-run)
             sid = p[0]
-            caught = [c.split(':')[0] for c in p[3:] if 'viol=' in c and
-                      not c.endswith('viol=0')]
-            if caught:
-                want[sid] = caught
+            for c in p[2:]:
+                if 'viol=' not in c:
+                    continue
+                prop = c.split(':')[0]
+                cur = want.setdefault(sid, [])
+                if c.endswith('viol=0'):
+                    if prop in cur:
+                        cur.remove(prop)
+                elif prop not in cur:
+                    cur.append(prop)
     for sid, caught in sorted(want.items()):
+        if not caught:
+            continue
         if props and not any(c in props for c in caught):
             continue
         patch = os.path.join(ROOT, 'seeded', sid, 'patch.diff')
